@@ -36,7 +36,7 @@ class Ctx:
     def __init__(self, pid, tier="quick", seed=0, selftest=False):
         self.pid, self.tier, self.seed, self.selftest = pid, tier, seed, selftest
         self.t0 = time.time()
-        self.work = os.path.join(VERIF, ".work", pid)
+        self.work = os.path.join(VERIF, ".work", f"{pid}-{os.getpid()}")      # per process: concurrent runs do not collide
         shutil.rmtree(self.work, ignore_errors=True)
         os.makedirs(self.work, exist_ok=True)
         self.states = 0
